@@ -34,6 +34,7 @@ let pres_op_of (tok : string) : pop =
   | 'C' -> OpClear
   | 'M' -> OpMutable
   | 'G' -> OpGet
+  | 'R' -> OpGet   (* binary round trip in mid-history: no change of the abstract state (C11_explicit_survives_roundtrip) *)
   | 'A' -> OpAppend (pres_val_of (pres_tail tok))
   | 'T' -> OpTruncate (nat_of_int (int_of_n (n_of_hex (pres_tail tok))))
   | 'L' -> let body = pres_tail tok in
